@@ -31,6 +31,8 @@ var proxyStubs = map[string]string{
 	"(*net/http/httputil.ReverseProxy).ServeHTTP": mod + "/internal/loadbalancer.verifStubProxy",
 	"(*net/http.Client).Do":                       mod + "/internal/loadbalancer.verifClientDo",
 	"net/http.TimeoutHandler":                     mod + "/cmd/helios.verifTimeoutHandler",
+	"(*net/http.Server).Shutdown":                 mod + "/cmd/helios.verifServerShutdown",
+	"(*net/http.Server).Close":                    mod + "/cmd/helios.verifServerClose",
 }
 
 // configStubs: LoadConfig runs for real except for the file system and the YAML parser.
@@ -494,6 +496,7 @@ func propC13() *Prop {
 				}
 			}
 			js = append(js, threadJob(lbJob("C13b/two-interleaved-requests[gauge and mirror at quiescence]", "VerifC13Interleaved"), int(tierPick(tier, 2, 3))))
+			js = append(js, threadJob(lbJob("C13b/request-in-flight-across-ejection-and-re-admission[gauge and mirror keep counting it]", "VerifC13InFlightAcrossEjection"), 1))
 			if tier != "thorough" {
 				jb := lbJob("C13a/accounting[round_robin,breaker,k=2,arbitrary health=1: the no-healthy-backend 503 under the breaker]", "VerifC13Accounting", 0, 1, 2, 1)
 				jb.MaxPaths = 400000
@@ -772,7 +775,7 @@ func propC11() *Prop {
 				js = append(js, j)
 			}
 			for s := int64(0); s < 5; s++ {
-				j := lbJob(fmt.Sprintf("C11a/remove-after-traffic[%s, 3 backends, 2 clients]", strategyNames[s]), "VerifC11RemoveAfterTraffic", s)
+				j := lbJob(fmt.Sprintf("C11a/remove-after-traffic[%s, 2..4 backends shrinking by one or two, 1..2 clients]", strategyNames[s]), "VerifC11RemoveAfterTraffic", s)
 				if s == 0 {
 					rrJob(j)
 				}
@@ -918,6 +921,7 @@ func propC19() *Prop {
 				js = append(js, threadJob(lbJob("C19/Stop-with-probe-in-flight-to-a-hung-backend[N=1,1 tick]", "VerifC19Stop", 3, 1, 1), 2))
 			}
 			js = append(js, threadJob(lbJob("C19/Stop-racing-Stop", "VerifC19Stop", 1, 1, 0), int(tierPick(tier, 2, 3))))
+			js = append(js, threadJob(mainJob("C19/main-shutdown-sequence[server.timeouts.shutdown 1..3600 s: in-flight requests get the whole budget, hard close only if draining failed]", "VerifC19Graceful"), 1))
 			js = append(js, threadJob(lbJob("C19/Stop-with-active-checks-disabled[the pool is still shut down]", "VerifC19Stop", 5, 1, 0), 1))
 			for i, n := range []string{"cleanup || Put", "Get || Get", "Put || Shutdown", "first Put of a new backend || Shutdown", "first Put || first Put of one new backend", "cleanup of the last stale connection || Shutdown", "cleanup of the last stale connection || Get and Stats", "Get discarding two stale connections || Put"} {
 				js = append(js, threadJob(lbJob("C19/pool["+n+"; afterwards Shutdown has closed every connection the pool accepted]", "VerifC20Concurrent", int64(i)), int(tierPick(tier, 2, 3))))
